@@ -61,7 +61,7 @@ func VerifC20_v1_ints_handler() {
 		}
 	}
 	_ = muxes
-	verifConcurrently(run(0), run(1))
+	verifInterleave(run(0), run(1))
 	verifRaceFree("generated-handler")
 	for i := 0; i < 2; i++ {
 		s := specs[i]
